@@ -18,7 +18,7 @@ use crate::procmon::{self, Run, Scratch, StdinKind, StdoutKind};
 use crate::rng::Rng;
 
 pub const VOCAB: &[&str] = &[
-    "-f", "-t", "-fj", "-fjson", "-f=yaml", "-fy", "-ft", "-fm", "-ty", "-tj", "-tm", "-tt", "-tmsgpack", "-ttoml", "-t=y", "-tx", "-f=", "-fJSON", "j", "json", "yaml", "m", "bogus", "-h", "--help", "-V", "--version", "--help=x", "--version=1", "-hV", "-Vh", "-tV", "-hx", "--", "-", "-x", "--bogus", "--from", "-F", "good.json", "good.yaml", "good", "bad.json", "undet", "nullval.json", "missing.json", "dir", "", "deep.json", "bom", "-tyml", "-fyml", "note.t",
+    "-f", "-t", "-fj", "-fjson", "-f=yaml", "-fy", "-ft", "-fm", "-ty", "-tj", "-tm", "-tt", "-tmsgpack", "-ttoml", "-t=y", "-tx", "-f=", "-fJSON", "j", "json", "yaml", "m", "bogus", "-h", "--help", "-V", "--version", "--help=x", "--version=1", "-hV", "-Vh", "-tV", "-hx", "--", "-", "-x", "--bogus", "--from", "-F", "good.json", "good.yaml", "good", "bad.json", "undet", "nullval.json", "missing.json", "dir", "", "deep.json", "bom", "-tyml", "-fyml", "note.t", "/proc/version",
 ];
 
 pub fn files() -> BTreeMap<String, PathKind> {
@@ -41,6 +41,12 @@ pub fn files() -> BTreeMap<String, PathKind> {
     m.insert("bom".into(), PathKind::Regular("\u{feff}k: \u{65e5}\u{672c}\n".as_bytes().to_vec()));
     // an extension that is a format's one-letter ALIAS is not a recognised extension: content decides
     m.insert("note.t".into(), PathKind::Regular(b"{\"json\": [1, 2]}\n".to_vec()));
+    // a regular file of the proc file system: it reports size 0, cannot be mapped, and still has content
+    // (whatever it holds on this machine: the model runs the library on the same bytes)
+    match std::fs::read("/proc/version") {
+        Ok(b) if !b.is_empty() => m.insert("/proc/version".into(), PathKind::Regular(b)),
+        _ => m.insert("/proc/version".into(), PathKind::Missing),
+    };
     // words of the vocabulary that end up as path operands name nothing
     for w in ["j", "json", "yaml", "m", "bogus", ""] {
         m.insert(w.into(), PathKind::Missing);
@@ -52,6 +58,19 @@ pub const STDINS: &[&[u8]] = &[b"{\"stdin\": 1}\n", b"{\"stdin\": [}", b""];
 
 thread_local! {
     static SCRATCH: RefCell<Option<Scratch>> = RefCell::new(None);
+    /// the program name (argv[0]) the next runs of this thread are started under; None = "xt"
+    static ARG0: RefCell<Option<String>> = RefCell::new(None);
+}
+
+/// Program names a process can legitimately be started under: not valid UTF-8 (U+FFFD stands for the
+/// byte 0xE9, see procmon::os_name), empty, a path, with a space.
+pub const ARG0S: &[&str] = &["x\u{fffd}t", "\u{fffd}", "", "/usr/local/bin/xt", "x t", "\u{fffd}\u{fffd}-\u{65e5}"];
+
+pub fn judge_as(arg0: &str, argv: &[String], stdin: &[u8], stdout: &StdoutKind, acc: &mut Acc) {
+    ARG0.with(|a| *a.borrow_mut() = Some(arg0.to_string()));
+    acc.count("runs_under_another_program_name");
+    judge_delivery(argv, stdin, &[], stdout, acc);
+    ARG0.with(|a| *a.borrow_mut() = None);
 }
 
 fn with_scratch<T>(f: impl FnOnce(&Scratch) -> T) -> T {
@@ -61,6 +80,7 @@ fn with_scratch<T>(f: impl FnOnce(&Scratch) -> T) -> T {
             let sc = Scratch::new();
             for (name, kind) in files() {
                 match kind {
+                    PathKind::Regular(_) if name.starts_with('/') => {} // exists already (procfs)
                     PathKind::Regular(b) => {
                         sc.file(&name, &b);
                     }
@@ -100,7 +120,14 @@ pub fn judge_delivery(argv: &[String], stdin: &[u8], cuts: &[usize], stdout: &St
         acc.count("stdin_delivered_in_bursts");
         StdinKind::Bursts(bursts, 25)
     };
-    let out = with_scratch(|sc| procmon::run(Run { bin: &procmon::release_bin(), argv: argv.to_vec(), cwd: sc.path(), stdin: stdin_kind, stdout: stdout.clone(), wall_secs: 60, cpu_secs: 20 }));
+    let arg0 = ARG0.with(|a| a.borrow().clone());
+    let out = with_scratch(|sc| {
+        let r = Run { bin: &procmon::release_bin(), argv: argv.to_vec(), cwd: sc.path(), stdin: stdin_kind, stdout: stdout.clone(), wall_secs: 60, cpu_secs: 20 };
+        match &arg0 {
+            Some(a) => procmon::run_as(r, a),
+            None => procmon::run(r),
+        }
+    });
     if matches!(out.status, procmon::Status::Timeout | procmon::Status::SpawnError(_)) {
         acc.inconclusive += 1;
         acc.count("process_inconclusive");
@@ -153,7 +180,7 @@ pub fn judge_delivery(argv: &[String], stdin: &[u8], cuts: &[usize], stdout: &St
         };
         acc.violation(Violation {
             sig: format!("{}: {}", sig_class, ev::truncate(&crate::c02_mask(&e), 80)),
-            case: json!({"argv": argv, "stdin_hex": hex(stdin), "stdin_cuts": cuts, "stdout": format!("{stdout:?}")}),
+            case: json!({"argv": argv, "arg0": arg0, "stdin_hex": hex(stdin), "stdin_cuts": cuts, "stdout": format!("{stdout:?}")}),
             observed: format!("{e}; status {}, stdout [{}], stderr [{}]", out.status.show(), preview(&out.stdout, 100), preview(&out.stderr, 160)),
             expected: format!("model class {:?}", class),
         });
@@ -228,6 +255,23 @@ pub fn run(ctx: &Ctx) -> i32 {
     });
     let mut acc = acc;
     acc.merge(pair_acc);
+    // the same judgement with the process started under other program names (argv[0]): every vector of
+    // length 0..=1 and a sample of longer ones, under each name
+    let n_named = (1 + v) + ctx.size(300, 3000);
+    let named_acc = crate::par::run(n_named * ARG0S.len(), 8, |i, acc| {
+        let (ai, k) = (i % ARG0S.len(), i / ARG0S.len());
+        let mut rng = Rng::derive(seed, 0xc13a, k as u64);
+        let argv: Vec<String> = if k == 0 {
+            vec![]
+        } else if k <= v {
+            vec![VOCAB[k - 1].to_string()]
+        } else {
+            (0..rng.range(2, 4)).map(|_| rng.pick(VOCAB).to_string()).collect()
+        };
+        acc.distinct(&(ai, &argv));
+        judge_as(ARG0S[ai], &argv, STDINS[k % 3], &if k % 4 == 3 { StdoutKind::File } else { StdoutKind::Pipe }, acc);
+    });
+    acc.merge(named_acc);
     // standard input that trickles in: multi-document streams (complete, and with a malformed or
     // unrepresentable later part) cut into 2-4 bursts at and inside document boundaries
     let streams: Vec<(&str, Vec<u8>)> = vec![
@@ -271,11 +315,11 @@ pub fn run(ctx: &Ctx) -> i32 {
         judge_delivery(&argv, bytes, &cuts, &StdoutKind::Pipe, acc);
     });
     acc.merge(b_acc);
-    let rule = format!("EVERY argument vector of length 0..={} over a {}-token vocabulary (-f/-t with every name and alias in attached, detached and '=' forms, repeated, missing value, invalid name; unknown short/long options; -h --help -V --version and clustered/valued forms; '--'; '-'; translatable / malformed / undetectable / unrepresentable / missing / directory / empty paths, a JSON file nested 200 000 deep, YAML behind a UTF-8 byte order mark, a file whose extension is a one-letter format alias; the extension spelling 'yml' as an option value) plus {} random vectors of length 3-6 and every ordered pair of translatable inputs x every target; each run with a pipe and (rotating) a file, a pseudo-terminal or /dev/full as stdout, stdin content rotating over translatable / malformed / empty; plus 10 multi-document streams (complete, or with a malformed / unrepresentable later document; up to 30 KiB) x named or detected source x 4 targets, trickling in on stdin in 2-4 bursts with pauses; distinct non-trivial = distinct argument vectors", exhaustive_len, v, n_random);
+    let rule = format!("EVERY argument vector of length 0..={} over a {}-token vocabulary (-f/-t with every name and alias in attached, detached and '=' forms, repeated, missing value, invalid name; unknown short/long options; -h --help -V --version and clustered/valued forms; '--'; '-'; translatable / malformed / undetectable / unrepresentable / missing / directory / empty paths, a JSON file nested 200 000 deep, YAML behind a UTF-8 byte order mark, a file whose extension is a one-letter format alias, a procfs file (regular, reported size 0, not mappable, with content); the extension spelling 'yml' as an option value) plus {} random vectors of length 3-6 and every ordered pair of translatable inputs x every target; every vector of length 0..=1 and a sample of longer ones again with the process started under 6 other program names (argv[0] not valid UTF-8, empty, a path, with a space); each run with a pipe and (rotating) a file, a pseudo-terminal or /dev/full as stdout, stdin content rotating over translatable / malformed / empty; plus 10 multi-document streams (complete, or with a malformed / unrepresentable later document; up to 30 KiB) x named or detected source x 4 targets, trickling in on stdin in 2-4 bursts with pauses; distinct non-trivial = distinct argument vectors", exhaustive_len, v, n_random);
     let mut extra = serde_json::Map::new();
     extra.insert("argv_exhaustive_up_to_length".into(), json!(exhaustive_len));
     ev::finish(
-        Finish { ctx, level: "exploration", rule, assumptions: vec!["the harness runs as root, so an unreadable-file case cannot be produced (permission bits are ignored); missing files and directories stand in for open failures".into(), "argv is tokenised by the lexopt crate, the manual's rules are applied by the harness".into()], extra, exhaustive: false, min_distinct: 1000, must_reach: vec![("class_usage".into(), 500), ("class_help".into(), 200), ("class_run".into(), 500), ("run_expected_exit_0".into(), 100), ("run_expected_exit_1".into(), 100), ("msgpack_to_terminal_cases".into(), 10), ("stdout_pty".into(), 200), ("class_run_dev_full".into(), 50), ("stdin_delivered_in_bursts".into(), 200)] },
+        Finish { ctx, level: "exploration", rule, assumptions: vec!["the harness runs as root, so an unreadable-file case cannot be produced (permission bits are ignored); missing files and directories stand in for open failures".into(), "argv is tokenised by the lexopt crate, the manual's rules are applied by the harness".into()], extra, exhaustive: false, min_distinct: 1000, must_reach: vec![("class_usage".into(), 500), ("class_help".into(), 200), ("class_run".into(), 500), ("run_expected_exit_0".into(), 100), ("run_expected_exit_1".into(), 100), ("msgpack_to_terminal_cases".into(), 10), ("stdout_pty".into(), 200), ("class_run_dev_full".into(), 50), ("stdin_delivered_in_bursts".into(), 200), ("runs_under_another_program_name".into(), 1000)] },
         acc,
     )
 }
@@ -292,7 +336,10 @@ pub fn replay(v: &Value) -> i32 {
     };
     let mut acc = Acc::default();
     let cuts: Vec<usize> = c["stdin_cuts"].as_array().map(|a| a.iter().filter_map(|x| x.as_u64().map(|n| n as usize)).collect()).unwrap_or_default();
-    judge_delivery(&argv, &stdin, &cuts, &stdout, &mut acc);
+    match c["arg0"].as_str() {
+        Some(a) => judge_as(a, &argv, &stdin, &stdout, &mut acc),
+        None => judge_delivery(&argv, &stdin, &cuts, &stdout, &mut acc),
+    }
     println!("argv {:?} stdout {:?} -> model class {:?}", argv, stdout, climodel::classify(&argv));
     if acc.vio_count > 0 {
         println!("VIOLATION property=C13 replay=<this file> (reproduced): {}", acc.violations[0].observed);
